@@ -167,7 +167,7 @@ func Explore(t *testing.T, sc *Scenario, cfg Config, r *vrep.Result) *Summary {
 				}
 				var x *Exec
 				ok := false
-				for attempt := 0; attempt < 3; attempt++ {
+				for attempt := 0; attempt < 6; attempt++ {
 					x = RunOnce(t, sc, ch, false)
 					if x.S != nil && x.S.Diverged == "" && (len(ch) == 0 || sigHash(x.S.Trace, len(ch)) == e.sigHash) {
 						ok = true
